@@ -43,14 +43,22 @@ def q(s):
     return '"' + s + '"'
 
 
-def rand_table(rng, max_rows):
+def rand_table(rng, max_rows, defs=None):
+    """defs: when given, some rows name their operators through a rule (`Op0 = "+" | "-"`) instead of spelling them; the
+    rules are collected there"""
     rows = []
     for _ in range(rng.randint(1, max_rows)):
         kind = rng.choice(KINDS)
         if kind == 'mixfix':
             ops = [rng.choice(MIXFIX)]
         else:
-            ops = [q(s) for s in rng.sample(SPELLINGS, rng.randint(1, 2))]
+            spells = rng.sample(SPELLINGS, rng.randint(1, 2))
+            if defs is not None and rng.random() < 0.3:
+                name = f'Op{len(defs)}'
+                defs[name] = spells
+                ops = [name]
+            else:
+                ops = [q(s) for s in spells]
         rows.append((kind, ops))
     return rows
 
@@ -60,13 +68,13 @@ def render_table(operand, rows, sep='\n'):
     return f'{operand} between {{\n{body}\n}}'
 
 
-def directed_inputs(rng, rows, n):
+def directed_inputs(rng, rows, n, defs=None):
     """token sequences built from the table's own operators: (pre* operand post*) (inf pre* operand post*)*, 2-5 operands,
     complete and truncated - long enough for two operators of one row with operators of other rows pending between them"""
-    un = lambda o: o.strip('"')
-    pre = [un(o) for k, ops in rows if k == 'prefix' for o in ops]
-    post = [un(o) for k, ops in rows if k == 'postfix' for o in ops]
-    inf = [un(o) for k, ops in rows if k in ('left', 'right', 'infix') for o in ops]
+    un = lambda o: (defs or {}).get(o) or [o.strip('"')]
+    pre = [x for k, ops in rows if k == 'prefix' for o in ops for x in un(o)]
+    post = [x for k, ops in rows if k == 'postfix' for o in ops for x in un(o)]
+    inf = [x for k, ops in rows if k in ('left', 'right', 'infix') for o in ops for x in un(o)]
     out = []
     for _ in range(n):
         parts = []
@@ -98,11 +106,12 @@ def build_jobs(tier, seed):
     seen = set()
     for i in range(n):
         okind, otext, orules = rng.choice(OPERANDS)
-        rows = rand_table(rng, 3 if tier == 'quick' or rng.random() < 0.7 else 5)
+        defs = {}
+        rows = rand_table(rng, 3 if tier == 'quick' or rng.random() < 0.7 else 5, defs)
         with_ignore = rng.random() < 0.15
         ctx = rng.choice(['plain', 'plain', 'alt', 'seq', 'opt'])
         table = render_table(otext, rows)
-        lines = [f'E = {table}'] + orules
+        lines = [f'E = {table}'] + orules + [f'{k} = ' + ' | '.join(q(x) for x in v) for k, v in defs.items()]
         if ctx == 'plain':
             lines.insert(0, 'start = E')
         elif ctx == 'alt':
@@ -118,10 +127,34 @@ def build_jobs(tier, seed):
             continue
         seen.add(text)
         inputs = rng.sample(base, min(len(base), 260 if tier == 'quick' else 700)) + extra
-        inputs = list(dict.fromkeys(inputs + directed_inputs(rng, rows, 40 if tier == 'quick' else 120)))
-        jobs.append({'id': len(jobs), 'text': text, 'cases': [(0, t) for t in inputs], 'entries': ['start', 'E'], 'fuel': 400,
+        inputs = list(dict.fromkeys(inputs + directed_inputs(rng, rows, 40 if tier == 'quick' else 120, defs)))
+        inlined = None
+        if defs:
+            # the same table with the operator rules written out in the rows: a reference means its body
+            rows_in = [(k, [x for o in ops for x in ([q(y) for y in defs[o]] if o in defs else [o])]) for k, ops in rows]
+            inlined = text.replace(table, render_table(otext, rows_in))
+        jobs.append({'id': len(jobs), 'text': text, 'cases': [(0, t) for t in inputs], 'entries': ['start', 'E'], 'fuel': 400, 'inlined': inlined,
                      'meta': {'ctx': f'{okind}/{ctx}/{"+".join(k for k, _ in rows)}', 'kinds': [k for k, _ in rows], 'depth': len(rows)}})
     return jobs
+
+
+def _inline_job(job):
+    rr = corerun._state['rr']
+    out = {'id': job['id'], 'text': job['text'], 'n': 0, 'bad': []}
+    try:
+        a, _ = rr.compile_grammar(job['text'])
+        b, _ = rr.compile_grammar(job['inlined'])
+    except Exception as exc:      # noqa: BLE001
+        out['bad'].append(('(compile)', type(exc).__name__, str(exc)[:80]))
+        return out
+    for t in job['inputs']:
+        ra = rr.run_real_api(a.parse, t, 0, True, limit=3.0)[0]
+        rb = rr.run_real_api(b.parse, t, 0, True, limit=3.0)[0]
+        out['n'] += 1
+        if ra != rb and not (ra[0] == rb[0] == 'E'):
+            out['bad'].append((t, ra, rb))
+            break
+    return out
 
 
 def run(tier, seed, lean):
@@ -138,6 +171,18 @@ def run(tier, seed, lean):
         out['broken'].append({'key': f'{r["id"]}|tagging', 'grammar': r['text'],
                               'what': 'a table of the real generator is not tagged (prec, assoc) as the hypothesis of C02_tree_well_shaped_and_yield requires: '
                                       + r['tagcheck'][:80]})
+    # rows whose operators are named through rules against the same rows with the operators written out
+    pairs = [j for j in jobs if j.get('inlined')]
+    pairs = random.Random(seed).sample(pairs, min(len(pairs), 80 if tier == 'quick' else 600))
+    res = corerun.pool_map(_inline_job, [{'id': j['id'], 'text': j['text'], 'inlined': j['inlined'], 'inputs': [t for _, t in j['cases']][:160]} for j in pairs],
+                           corerun._init, (bits,), chunksize=4)
+    for r in res:
+        out['coverage']['evaluations'] += r['n']
+        for m in r['bad'][:1]:
+            out['violations'].append({'key': f'inline|{r["text"]}|{m[0]}', 'sig': 'rule-named-operators', 'kind': 'spec', 'grammar': r['text'], 'input': m[0],
+                                      'what': f'on {m[0]!r} the table with operators named through rules gives {str(m[1])[:90]}, with the operators written out '
+                                              f'in the rows {str(m[2])[:90]} [{r["text"][:200]!r}]'})
+    out['coverage']['tables_compared_with_inlined_operator_rules'] = len(res)
     # operators of a postfix row and of an infix row that can be read at the same place: the statement lets the longest
     # match / the longest expression win, the generated loop reads postfix operators first (recorded finding)
     import realrun
